@@ -120,10 +120,15 @@ type Sim struct {
 	lastAddOut map[int64]addOutInfo // per goroutine: the last addOut it performed
 	phPtr      map[uintptr]bool     // placeholder dependants of AddDependency outside a rerunner (&node{released: true})
 	sawKeyLock bool
+	hung       bool // a Stop did not return: goroutines of this case are blocked for ever
 	active     int32
 }
 
 var errFail = errors.New("harness: compute failed")
+
+// how long Stop may take (it waits for the run in progress: compute functions of the harness take microseconds,
+// scripted pauses a few milliseconds, WriteThenReadDelay at most 12 ms)
+const stopDeadline = 4 * time.Second
 
 func curGid() int64 {
 	var buf [40]byte
@@ -748,7 +753,26 @@ func (s *Sim) inject(in Inj) {
 		st.stopCalled = true
 		s.events = append(s.events, ev{gid: curGid(), kind: "env.stop", env: true, a: in.Target})
 		s.mu.Unlock()
-		rr.Stop()
+		// Stop on a goroutine of its own with a deadline: a Stop that never returns (r.mu never released: a run
+		// that deadlocked) must become an oracle failure with this case as its replay, not a harness that hangs
+		done := make(chan struct{})
+		go func() {
+			s.mu.Lock()
+			s.harnessGid[curGid()] = true
+			s.mu.Unlock()
+			rr.Stop()
+			close(done)
+		}()
+		select {
+		case <-done:
+		case <-time.After(stopDeadline):
+			s.mu.Lock()
+			s.hung = true
+			s.fail("stop-does-not-return", fmt.Sprintf("Stop of rerunner %d (alwaysSpawnGoroutine=%v) has not returned after %v: r.mu is never released (a run is blocked for ever), the stale computation is never run again",
+				in.Target, s.c.RRs[in.Target].Spawn, stopDeadline))
+			s.mu.Unlock()
+			return
+		}
 		if atomic.LoadInt32(&st.inCompute) != 0 {
 			s.mu.Lock()
 			s.fail("run-in-progress-when-stop-returned", fmt.Sprintf("rerunner %d", in.Target))
@@ -853,16 +877,17 @@ func (s *Sim) waitQuiet(base int, timeout time.Duration) bool {
 
 // Result of running one case.
 type Result struct {
-	Events     []ev
-	Fails      []failure
-	Outs       [][]pair // published value per rerunner (nil: none)
-	HasOut     []bool
-	Vers       []int
-	Computes   int
-	Quiet      bool
-	DumpBroken bool
-	NEvents    int
-	Kinds      map[string]int
+	Events                      []ev
+	Fails                       []failure
+	Outs                        [][]pair // published value per rerunner (nil: none)
+	HasOut                      []bool
+	Vers                        []int
+	Computes                    int
+	Quiet                       bool
+	LiveAtQuiet, CleanedAtQuiet int
+	DumpBroken                  bool
+	NEvents                     int
+	Kinds                       map[string]int
 }
 
 // RunCase executes the case against the implementation and evaluates the oracle.
@@ -932,6 +957,7 @@ func RunCase(c *Case) (res *Result) {
 			if st.stopCalled || st.failed || st.cancelled {
 				continue
 			}
+			res.LiveAtQuiet++ // premise of no_lost_invalidation / final_output_has_no_superseded_version holds of this rerunner
 			if !st.hasPub {
 				s.fail("no-output-at-quiescence", fmt.Sprintf("rerunner %d neither stopped nor failed but published nothing", ri))
 				continue
@@ -954,6 +980,11 @@ func RunCase(c *Case) (res *Result) {
 				pinned = true
 			}
 		}
+		for p, id := range s.ids {
+			if s.harnessRes[p] && s.used[id] && !s.current[id] && s.cleanups[id] == 1 {
+				res.CleanedAtQuiet++ // premise of cleanup_exactly_once_at_quiescence held of this superseded resource
+			}
+		}
 		if !pinned {
 			for p, id := range s.ids {
 				if s.harnessRes[p] && s.used[id] && !s.current[id] && s.cleanups[id] != 1 {
@@ -970,13 +1001,19 @@ func RunCase(c *Case) (res *Result) {
 	// final phase: stop everything; every resource that was ever depended upon must then be cleaned exactly once
 	for ri, st := range s.st {
 		s.mu.Lock()
-		sc := st.stopCalled
+		sc := st.stopCalled || s.hung // after one Stop that does not return the others are not worth their deadline
 		s.mu.Unlock()
 		if !sc {
 			s.inject(Inj{Kind: "stop", Target: ri})
 		}
 	}
-	quiet2 := s.waitQuiet(base, 6*time.Second)
+	s.mu.Lock()
+	hung := s.hung
+	s.mu.Unlock()
+	quiet2 := false
+	if !hung {
+		quiet2 = s.waitQuiet(base, 6*time.Second)
+	}
 	atomic.StoreInt32(&s.active, 0)
 	s.mu.Lock()
 	defer s.mu.Unlock()
